@@ -351,7 +351,7 @@ def rule_life(cx, em, hm, fns, st_tbl, tk_tbl, snippet_line, host_names):
     _LIFE_CTX.update({"em": em, "hm": hm, "fns": fns, "st_tbl": st_tbl, "tk_tbl": tk_tbl})
     tasks = [(style, cols, row, loop) for style in sorted(set(st_tbl) | set(host_names)) for cols, row, loop in itertools.product((8, 16), (0, 1), (True, False))]
     try:
-        with cf.ProcessPoolExecutor(max_workers=min(8, os.cpu_count() or 2), mp_context=multiprocessing.get_context("fork")) as ex:
+        with cf.ProcessPoolExecutor(max_workers=__import__('sa.core', fromlist=['workers']).workers(8), mp_context=multiprocessing.get_context("fork")) as ex:
             parts = list(ex.map(_life_task, tasks))
     except (OSError, ValueError, cf.process.BrokenProcessPool):
         parts = [_life_task(t_) for t_ in tasks]
